@@ -1791,6 +1791,28 @@ let is_lit n0 =
 let is_ident n0 =
   is_kind KIdent n0
 
+(** val is_leaf_kind : kind -> bool **)
+
+let is_leaf_kind k =
+  (||) (is_lit_kind k)
+    (match k with
+     | KTplElem -> true
+     | KIdentName -> true
+     | KThis -> true
+     | KSuper -> true
+     | KPrivateName -> true
+     | _ -> false)
+
+(** val leaf : node -> bool **)
+
+let leaf = function
+| Node (t, _) ->
+  (match t with
+   | K (k, _, _) -> is_leaf_kind k
+   | Obj -> false
+   | Lst -> false
+   | _ -> true)
+
 (** val gen_DATADOG_VAR_PREFIX : char list **)
 
 let gen_DATADOG_VAR_PREFIX =
@@ -8155,11 +8177,12 @@ type opclass =
 | OOptChain
 | OUnary
 | OArrow
+| OLeaf
 | OOther
 
 (** val classify : node -> opclass **)
 
-let classify = function
+let classify n0 = match n0 with
 | Node (t, _) ->
   (match t with
    | K (k, _, _) ->
@@ -8173,8 +8196,8 @@ let classify = function
       | KUnary -> OUnary
       | KArrow -> OArrow
       | KIdent -> OIdent
-      | _ -> OOther)
-   | _ -> OOther)
+      | _ -> if leaf n0 then OLeaf else OOther)
+   | _ -> if leaf n0 then OLeaf else OOther)
 
 (** val default_visit_with :
     (node -> ostate -> (node * ostate) option) -> node -> ostate ->
@@ -8285,6 +8308,7 @@ let struct_level_with c rec0 n0 s =
   match classify n0 with
   | OBlock -> Some (n0, s)
   | OIdent -> Some (n0, (o_with_p (register_variable c n0 s.o_p) s))
+  | OLeaf -> Some (n0, s)
   | _ -> default_visit_with rec0 n0 s
 
 (** val bin_step : config -> node -> ostate -> node * ostate **)
@@ -8343,7 +8367,6 @@ let rec op_visit c fuel root n0 s =
   | O -> None
   | S f ->
     (match classify n0 with
-     | OBlock -> Some (n0, s)
      | OIdent -> Some (n0, (o_with_p (register_variable c n0 s.o_p) s))
      | OBin ->
        if plus_enabled c
@@ -8384,7 +8407,8 @@ let rec op_visit c fuel root n0 s =
        then Some (n0, s)
        else default_visit_with (op_visit c f root) n0 s
      | OArrow -> Some ((arrow_transform n0), s)
-     | OOther -> default_visit_with (op_visit c f root) n0 s)
+     | OOther -> default_visit_with (op_visit c f root) n0 s
+     | _ -> Some (n0, s))
 
 (** val can_precede_directive : node -> bool **)
 
@@ -8806,11 +8830,13 @@ let is_hook n0 =
 
 let rec hook_count = function
 | Node (t, cs) ->
-  add (if is_hook (Node (t, cs)) then S O else O)
-    (let rec go = function
-     | [] -> O
-     | c :: l' -> add (hook_count c) (go l')
-     in go cs)
+  if (||) (leaf (Node (t, cs))) (is_ident (Node (t, cs)))
+  then O
+  else add (if is_hook (Node (t, cs)) then S O else O)
+         (let rec go = function
+          | [] -> O
+          | c :: l' -> add (hook_count c) (go l')
+          in go cs)
 
 (** val hook_names : node -> char list list **)
 
